@@ -71,6 +71,7 @@ type rRequest struct {
 	Script  []bool            `json:"script"`
 	Fail    bool              `json:"fail"`
 	SameErr bool              `json:"sameErr"`
+	SetStatus int             `json:"setStatus"`
 	// bookkeeping for the trace (not used by the driver)
 	Handler *hHandler `json:"handler,omitempty"`
 	Toks    []string  `json:"toks,omitempty"`
@@ -148,12 +149,20 @@ var (
 	calls  int
 	fail   bool
 	same   bool
+	status int
 )
 
-func Reset(s []bool, f bool, sameErr bool) {
+func Reset(s []bool, f bool, sameErr bool, customStatus int) {
 	mu.Lock()
 	defer mu.Unlock()
-	events, script, calls, fail, same = nil, s, 0, f, sameErr
+	events, script, calls, fail, same, status = nil, s, 0, f, sameErr, customStatus
+}
+
+// CustomStatus is the status the controller is to set through SetStatus before returning (0 = none).
+func CustomStatus() int {
+	mu.Lock()
+	defer mu.Unlock()
+	return status
 }
 
 // SameErr reports whether the callback is to answer every refusal with one shared error value.
@@ -258,6 +267,8 @@ func recHook(c pCtrl, m pMethod, retLocal []string, imports map[string]bool) str
 		}
 		return ", " + strings.Join(args, ", ")
 	}())
+	imports["github.com/gopher-fleece/runtime"] = true
+	sb.WriteString("\tif st := vrec.CustomStatus(); st != 0 {\n\t\tctl_.SetStatus(runtime.HttpStatusCode(st))\n\t}\n")
 	last := ""
 	if len(retLocal) > 0 {
 		last = retLocal[len(retLocal)-1]
@@ -480,6 +491,14 @@ func enumerateRequests(id string, hs []hHandler, tokens map[string][]vToken, ful
 		}
 		r.Case, r.Rid, r.Handler, r.Toks, r.Script, r.Fail, r.Kind = id, len(reqs), h, append([]string{}, toks...), script, fail, kind
 		r.SameErr = kind == "auth-same-error"
+		switch kind {
+		case "status201":
+			r.SetStatus = 201
+		case "status202+fail":
+			r.SetStatus = 202
+		case "status503+fail":
+			r.SetStatus = 503
+		}
 		reqs = append(reqs, r)
 	}
 	annotated := map[string]bool{}
@@ -556,6 +575,9 @@ func enumerateRequests(id string, hs []hHandler, tokens map[string][]vToken, ful
 			}
 		}
 		add(h, base, nil, true, "fail")
+		add(h, base, nil, false, "status201")
+		add(h, base, nil, true, "status202+fail")
+		add(h, base, nil, true, "status503+fail")
 	}
 	// negative probes: never annotated verb/path pairs
 	probe := func(verb, path string) {
@@ -631,6 +653,7 @@ func driverSource(ids []string) string {
 	Script  []bool            ` + "`json:\"script\"`" + `
 	Fail    bool              ` + "`json:\"fail\"`" + `
 	SameErr bool              ` + "`json:\"sameErr\"`" + `
+	SetStatus int             ` + "`json:\"setStatus\"`" + `
 }
 
 type result struct {
@@ -668,7 +691,7 @@ func serve(s served, rq request) (res result) {
 			res.Panic = fmt.Sprint(p)
 		}
 	}()
-	vrec.Reset(rq.Script, rq.Fail, rq.SameErr)
+	vrec.Reset(rq.Script, rq.Fail, rq.SameErr, rq.SetStatus)
 	var body io.Reader
 	if rq.Body != "" {
 		body = strings.NewReader(rq.Body)
@@ -1014,7 +1037,7 @@ func routerTrace(args []string) error {
 				for _, a := range argsGot {
 					canonArgs = append(canonArgs, strings.ReplaceAll(a, unicodeSample, "<U1>"))
 				}
-				ev := map[string]any{"ev": "Run", "probe": rq.Probe, "target": h.Ctrl + "." + h.Method, "toks": toks, "script": script, "fail": rq.Fail, "sameErr": rq.SameErr,
+				ev := map[string]any{"ev": "Run", "probe": rq.Probe, "target": h.Ctrl + "." + h.Method, "toks": toks, "script": script, "fail": rq.Fail, "sameErr": rq.SameErr, "setStatus": rq.SetStatus,
 					"handler": map[string]any{"alts": alts, "params": params, "returnsValue": h.ReturnsValue},
 					"obs": map[string]any{"auth": auth, "invoked": invoked, "target": target, "args": canonArgs, "status": res.Status, "panicked": panicked}}
 				fmt.Fprintln(f, mustJSON(ev))
